@@ -450,7 +450,26 @@ def xcheck_splitted_copy(Ap, wp, attrsp, directed, v, p, A1, w1, attrs1, fail):
         if isinstance(e, KeyboardInterrupt):
             raise
         fail("splitted_copy/raises", repr(e))
-    return 4
+    # documented: "If negative, N + index is used" - the same node addressed from the end, and
+    # (for the last node and an even split) the default arguments, give the same split
+    try:
+        n0 = int(np.asarray(Ap).shape[0])
+        with quiet():
+            prev = build(Network, Ap, wp, directed, attrsp)
+            alts = [("node=%d" % (int(v) - n0), prev.splitted_copy(node=int(v) - n0, proportion=float(p)))]
+            if int(v) == n0 - 1 and float(p) == 0.5:
+                alts.append(("default arguments", prev.splitted_copy()))
+            for how, sc in alts:
+                gA = sc.adjacency
+                gw = np.array(sc.node_weights, dtype=float)
+                if gA.shape != A1.shape or (gA != A1).any() or not _close(w1, gw, 1e-12):
+                    fail("splitted_copy/negative-index", "%s: library %s weights %s ; definition %s weights %s" % (
+                        how, gA.tolist(), gw.tolist(), A1.tolist(), w1.tolist()))
+    except BaseException as e:
+        if isinstance(e, KeyboardInterrupt):
+            raise
+        fail("splitted_copy/negative-index", repr(e))
+    return 5
 
 
 def extend_list(L0, origin, n0, n1):
